@@ -1,5 +1,6 @@
 import Netpol.Model.WorldParse
 import Netpol.Model.Engine
+import Netpol.Model.Diff
 /-! Driver side of the world-level correspondence (`wcase` lines). -/
 namespace Netpol
 namespace WorldDriver
@@ -11,7 +12,6 @@ def errSx (e : Err) : Sexp := .list [.atom "err", .atom e.toStr]
 
 def sortStrs (l : List String) : List String := l.mergeSort (· ≤ ·)
 
-def entryLine (x : Engine.Entry) : String := x.src ++ " " ++ x.dst ++ " " ++ us x.conn.toStr
 
 /-- `(list FOCUS|-)` → `(ok (peers …) (e SRC DST CONN)…)`; connections printed from
 (`IsAllConnections`, `ProtocolsAndPortsMap`) as `Peer2PeerConnection` exposes them -/
@@ -29,7 +29,7 @@ def runList (objs : List Obj) (focus : String) : Sexp :=
           | .error e => errSx e
           | .ok entries =>
             let lines := sortStrs (entries.map fun x =>
-              x.src ++ " " ++ x.dst ++ " " ++ us (ConnSet.connStrFromProps x.conn.allowAll x.conn.protocolsAndPorts))
+              x.src.str ++ " " ++ x.dst.str ++ " " ++ us (ConnSet.connStrFromProps x.conn.allowAll x.conn.protocolsAndPorts))
             .list ([.atom "ok", .list (.atom "peers" :: (sortStrs (peers.map (·.str))).map .atom)] ++
               lines.map fun l => .list (.atom "e" :: (l.splitOn " ").map .atom))
 
@@ -45,6 +45,50 @@ def run (args : List Sexp) : Sexp :=
     match WorldParse.pWorld w with
     | none => .list [.atom "wcase", id, .atom "bad-world"]
     | some objs => .list (.atom "wcase" :: id :: qs.map (runQuery objs))
+  | _ => .atom "bad-case"
+
+/-- `(wpair ID KIND (world A) (world B) …)` → the two list results -/
+def runPair (args : List Sexp) : Sexp :=
+  match args with
+  | id :: _ :: wa :: wb :: _ =>
+    match WorldParse.pWorld wa, WorldParse.pWorld wb with
+    | some a, some b => .list [.atom "wpair", id, runList a "", runList b ""]
+    | _, _ => .list [.atom "wpair", id, .atom "bad-world"]
+  | id :: _ => .list [.atom "wpair", id, .atom "bad-case"]
+  | _ => .atom "bad-case"
+
+/-- the list analysis as the diff analyzer consumes it -/
+def listFor (objs : List Obj) : Except Err (List Engine.Entry × List Engine.LPeer) :=
+  match Engine.build objs with
+  | .error e => .error e
+  | .ok eng =>
+    if eng.pods.isEmpty then .ok ([], [])
+    else do
+      let peers ← eng.peersList
+      let entries ← eng.connsBetweenPeers peers ""
+      pure (entries, peers)
+
+def b01 (b : Bool) : String := if b then "1" else "0"
+
+def runDiff (a b : List Obj) : Sexp :=
+  match listFor a with
+  | .error e => errSx e
+  | .ok (e1, p1) =>
+    match listFor b with
+    | .error e => errSx e
+    | .ok (e2, p2) =>
+      let lines := sortStrs ((Diff.compute e1 e2 p1 p2).map fun d =>
+        " ".intercalate [d.typ, d.src, d.dst, us d.c1, us d.c2, b01 d.newSrc, b01 d.newDst])
+      .list (.atom "ok" :: lines.map fun l => .list (.atom "d" :: (l.splitOn " ").map .atom))
+
+/-- `(wdiff ID KIND (world A) (world B))` → list A, list B, diff -/
+def runWDiff (args : List Sexp) : Sexp :=
+  match args with
+  | id :: _ :: wa :: wb :: _ =>
+    match WorldParse.pWorld wa, WorldParse.pWorld wb with
+    | some a, some b => .list [.atom "wdiff", id, runList a "", runList b "", runDiff a b]
+    | _, _ => .list [.atom "wdiff", id, .atom "bad-world"]
+  | id :: _ => .list [.atom "wdiff", id, .atom "bad-case"]
   | _ => .atom "bad-case"
 
 end WorldDriver
